@@ -131,6 +131,9 @@ def check_truth(res, truth, tol=5e-6):
 
 
 def run(ctx):
+    ctx.assumptions += [
+        "convergence of gama's linearisation loop and completeness of the approximate-coordinate strategies are sampled, not proved",
+    ]
     ctx.check_proofs()
     bdir = enet.binaries(ctx)
     n = 24 if ctx.quick else 250
